@@ -65,6 +65,8 @@ def argv_of(sc, names):
         "scan": ["scan"] + names, "fix": ["fix"] + names, "stdin": ["scan-stdin"],
         "list_some": ["scan", "-l", "some"], "list_none": ["scan", "-l", "empty"],
         "scan_missing": ["scan", "missing.md"], "fix_missing": ["fix", "missing.md"],
+        "scan_good_missing": ["scan", "some/x.md", "missing.md"], "fix_good_missing": ["fix", "some/y.md", "missing.md"],
+        "scan_good_noglob": ["scan", "some/x.md", "nothing-*.md"],
         "plugins_list": ["plugins", "list"], "plugins_info_hit": ["plugins", "info", "md001"],
         "plugins_info_miss": ["plugins", "info", "md998"], "plugins_none": ["plugins"],
         "ext_list": ["extensions", "list"], "ext_info_hit": ["extensions", "info", "front-matter"],
@@ -87,10 +89,10 @@ def run_one(rec):
         stdin = CONTENT[kinds[0]]
     else:
         files = [("f%d.md" % (i + 1), CONTENT[kd]) for i, kd in enumerate(kinds)]
-    files_all = files + [("some/x.md", CONTENT["clean"])]
+    files_all = files + [("some/x.md", CONTENT["clean"]), ("some/y.md", CONTENT["fixable"])]
     obs = runs.execute(files_all, argv_of(sc, [n for n, _ in files]), stdin_bytes=stdin, dirs=("empty",))
     obs["names"] = [n for n, _ in files]
-    obs["contents"] = {k: v.decode("latin-1") for k, v in obs["contents"].items() if k != "some/x.md"}
+    obs["contents"] = {k: v.decode("latin-1") for k, v in obs["contents"].items() if k not in ("some/x.md", "some/y.md")}
     return obs
 
 
